@@ -24,6 +24,16 @@ def Statement : Prop :=
 /-- [P2] The full statement holds. -/
 theorem tarjan_scc : Statement := fun g h => components_correct g h
 
+/-- The statement holds for EVERY call of `components()` on the same `Tarjan` value (`&mut self`
+keeps `index`, `components`, … between calls): the `k`-th call returns exactly what the first
+one returned, hence again the partition into strongly connected components. -/
+theorem tarjan_every_call (g : VGraph) (h : g.Closed) (k : Nat) :
+    componentsAt g (k + 1) = components g ∧
+    ∃ cs, componentsAt g (k + 1) = .ret cs ∧ IsSCCPartition g cs := by
+  have e : componentsAt g (k + 1) = components g := by
+    unfold componentsAt; rw [callN_succ h k]; rfl
+  exact ⟨e, by rw [e]; exact components_correct g h⟩
+
 /-- [P0] Termination / fuel adequacy of the whole run: with ANY fuel supply that is at least the
 number of vertices not yet indexed, the run is the one of the model (which supplies that number
 plus one) — so the fuel is a termination proof, not an assumption.  Together with `tarjan_scc`
@@ -87,6 +97,7 @@ example : sparseGraph.Closed := by decide
 example : components sparseGraph = .ret [[3,1000],[7]] := by decide
 example : ∃ cs, components sparseGraph = .ret cs ∧ IsSCCPartition sparseGraph cs :=
   tarjan_scc sparseGraph (by decide)
+example : componentsAt sparseGraph 2 = .ret [[3,1000],[7]] := by decide
 
 /-- The precondition of `connect_fuel_adequate` is satisfiable (first top-level call), and the
 fuel bound is tight there: 3 un-indexed vertices. -/
